@@ -2,4 +2,5 @@ import Driver.Run
 import Driver.Gen
 import Driver.Session
 import Driver.Exec
+import Driver.Value
 import Driver.Main
